@@ -2,16 +2,17 @@
 # For every seeded change under /verif/seeded/<name>/ (patch.diff + meta.json): apply it to a scratch worktree of /repo
 # (so that background runs against /repo itself are not disturbed), run the quick check of the property it breaks (plus
 # the ids in meta.json "also") with FROST_REPO pointing at that worktree, undo it straight afterwards.
-# usage: tools/eval_seeded.sh [name ...]      (default: all)
+# usage: [EVAL_SLOT=x] tools/eval_seeded.sh [name ...]      (default: all; EVAL_SLOT selects a separate scratch copy / worktree
+# so that two evaluations can run side by side)
 cd "$(dirname "$0")/.."
 # work from a private copy of /verif (own mirror, own build directory) so that checks run from /verif itself at the same
 # time are not disturbed
-EV=/tmp/verif-eval
+EV=/tmp/verif-eval${EVAL_SLOT:+-$EVAL_SLOT}
 mkdir -p $EV && rsync -a --delete --exclude .git --exclude replays --exclude evidence --exclude 'work/*.jsonl' ./ $EV/ || exit 2
 mkdir -p $EV/evidence $EV/replays
 SEEDED=$PWD/seeded
 cd $EV
-WT=/tmp/wt/eval
+WT=/tmp/wt/eval${EVAL_SLOT:+-$EVAL_SLOT}
 if [ ! -d $WT ]; then git -C /repo worktree add -q --detach $WT HEAD || exit 2; fi
 git -C $WT checkout -q --detach $(git -C /repo rev-parse HEAD) && git -C $WT checkout -q -- . 
 names=("$@"); [ ${#names[@]} -eq 0 ] && names=($(ls $SEEDED))
